@@ -16,18 +16,24 @@ class C05(Prop):
     technique = ('Coq proof about a hand-written model of src/util/dataAccess.cpp that calls the translator-generated index '
                  'conversions (Flocq binary64) + correspondence through the public API on arrays filled with their own flat index, '
                  'judged by an extracted brute-force specification (linear scan over the axis coordinates)')
-    level_text = ('Machine-checked Coq theorems, unbounded in rank, shape and number of position entries: for the repaired behaviour '
-                  'taggedData(Tag) returns Ok(offset, count) exactly when every per-dimension index set {i | p <= x_i <= p(+)e} '
-                  '(resp. < for Exclusive; the first x_i >= p for an absent or zero extent; every index for a dimension the tag does not '
-                  'specify) is non-empty and inside the data, and then [offset, offset+count) IS that set in every dimension; otherwise '
-                  'the result is nix::OutOfBounds, never data (tagged_exact, tagged_oob); extra position entries are ignored, missing '
-                  'ones give the full dimension (Inclusive mode; the Exclusive case is refuted by a witness - open finding pinned by '
-                  'testFlexibleTagging); feature data follows the link type. The proofs use only the rule specification of the four '
-                  'conversions (C07) and monotone axes - they are about how retrieval composes the conversions. The brute-force oracle '
-                  'is proved equivalent to the Prop statement.')
+    level_text = ('Machine-checked Coq theorems (coq/Properties/Properties_C05.v), unbounded in rank, shape and number of position '
+                  'entries, no hypothesis left about the index conversions (discharged by the C07 theorems sampled / set / data-frame / '
+                  'range _index_spec): for the repaired behaviour taggedData(Tag) returns Ok(offset, count) exactly when every '
+                  'per-dimension index set {i | p <= x_i <= p(+)e} (< for Exclusive; the first x_i >= p for an absent or zero extent; every '
+                  'index for a dimension the tag does not specify) is non-empty and inside the data, and then [offset, offset+count) IS '
+                  'that set in every dimension (tagged_exact); otherwise the result is nix::OutOfBounds, never data and never another '
+                  'outcome (tagged_oob, tagged_total); extra position entries are ignored, missing ones give the full dimension '
+                  '(Inclusive mode; the Exclusive case is refuted by a witness - open finding pinned by testFlexibleTagging); feature '
+                  'data follows the link type; the extracted brute-force oracle equals the Prop statement (oracle_region / oracle_refuse / '
+                  'spec_ids_region) and the repaired model answers what the oracle answers on its whole domain (tag_meets_oracle). '
+                  'The proofs use only the rule specification of the conversions and monotone axes - they are about how retrieval '
+                  'composes the conversions. The last obligation current_is_repaired stays open until the fix: commits land.')
     level_note = ('Trusted: Coq kernel, Flocq, stdlib real-number axioms, translator, extraction and driver glue; the model of '
                   'dataAccess.cpp is hand-written and tied by the correspondence run (getOffsetAndCount vectors, shapes and element ids '
-                  'of the views actually returned). Unit scaling is restricted to atomic SI units of power 1; x86-64 SSE2 doubles.')
+                  'of the views actually returned, exception classes). Unit scaling is restricted to atomic SI units of power 1 '
+                  '(prefix factors from the generated table); x86-64 SSE2 doubles. The model mirrors the tree through one switch per '
+                  'known defect (record behaviour); RETR_MODEL=today|repaired|ideal or RETR_FLAGS=<switches> select another behaviour '
+                  'for replays against patched copies.')
     nontrivial_rule = ('a case is one array set-up (rank 1..3, every combination of sampled / range / set / data-frame descriptors) with a '
                        'tag whose entries are aimed at the coordinates (on, one ulp beside, between, outside; extent absent, zero, '
                        'negative, sub-ulp, reaching a coordinate exactly, one ulp short / long, beyond the data), fewer / equal / more '
@@ -122,7 +128,7 @@ class C05(Prop):
         rnd = random.Random(seed)
         combos = G.all_kind_combos()          # 4 + 16 + 64
         quick = tier == 'quick'
-        per = (18 if quick else 800) * scale
+        per = (18 if quick else 760) * scale
         cases = []
         flavours = ['std', 'std', 'std', 'std', 'pad', 'pad', 'units', 'plain', 'inconsistent', 'malformed', 'noref']
         for kinds in combos:
@@ -130,6 +136,10 @@ class C05(Prop):
             for r in range(reps):
                 cases.append(self.one_case(rnd, list(kinds), flavours[r % len(flavours)] if r < len(flavours) else rnd.choice(flavours)))
         return cases
+
+    def nontrivial(self, case, model_lines):
+        """the model returned data (not an error) for at least one QUERY line; set-up lines do not count"""
+        return any(m.startswith('OK') and l.split(' ')[0] not in G.SETUP for l, m in zip(case.lines, model_lines))
 
     def signature(self, case, impl, spec):
         return G.signature('tag', case, impl, spec, self.compare)
